@@ -31,14 +31,14 @@ func TestMinimize(t *testing.T) {
 	}
 	kind := os.Getenv("VERIF_MINIMIZE_KIND")
 	fails := func(u gen.Universe) bool {
-		obs, _, _, _, err := validate(u, c.Root)
+		obs, _, _, _, err := validate(u, c.Root, c.Prior...)
 		return err == nil && obs != "" && strings.Contains(obs, kind)
 	}
 	if !fails(c.Universe) {
 		t.Fatal("case does not fail with that kind")
 	}
 	u := gen.MinimizeUniverse(c.Universe, fails)
-	obs, _, _, _, _ := validate(u, c.Root)
-	out, _ := json.Marshal(rootCase{u, c.Root})
+	obs, _, _, _, _ := validate(u, c.Root, c.Prior...)
+	out, _ := json.Marshal(rootCase{u, c.Root, c.Prior})
 	t.Logf("minimal:\nroot %v\n%s\n%s\nJSON: %s", c.Root, u.Text(), obs, out)
 }
